@@ -2,8 +2,8 @@
 
     Per module M: the parameter record (decimal / integer fields are [option Z]: [None] = the Go
     field is nil, which makes the library's comparisons and arithmetic panic), [validate_M]
-    mirroring [Params.Validate()] branch by branch (of the FIXED code: repo commits 8ab26ad,
-    de3d691, 46986d3), the update by message / by genesis, and every
+    mirroring [Params.Validate()] branch by branch (of the FIXED code: the three repo commits
+    "fix: farm / coinswap / token Params.Validate ..."), the update by message / by genesis, and every
     parameter-consuming arithmetic path of the handlers and blockers with its abort points
     explicit ([Panic why], [why] naming the Go expression that panics).
 
@@ -114,7 +114,7 @@ Definition validate_cs (p : cs_params) : outcome :=
       if negb (in_open01 f) then Rej
       else if negb (denom_valid (c_denom (cs_pcf p))) then Rej   (* PoolCreationFee.Validate(): denom *)
       else match c_amt (cs_pcf p) with
-           | None => Rej                                     (* ... "amount is nil" (fix de3d691; was a panic in IsPositive) *)
+           | None => Rej                                     (* ... "amount is nil" (coinswap fix; was a panic in IsPositive) *)
            | Some a =>
                if a <? 0 then Rej                            (* ... negative amount *)
                else if negb (0 <? a) then Rej                (* IsPositive *)
@@ -238,7 +238,7 @@ Definition cs_path (p : cs_params) (o : cs_op) : option res :=
 Record fm_params := mkFm { fm_pcf : coin; fm_maxcat : Z; fm_tax : option Z }.
 
 (** [Params.Validate]: the creation fee ([Coin.IsValid]: nil amount is an ordinary error), then
-    [validateTaxRate] (fix 8ab26ad; the unfixed code never validated the tax rate) *)
+    [validateTaxRate] (farm fix; the unfixed code never validated the tax rate) *)
 Definition validate_fm (p : fm_params) : outcome :=
   if negb (denom_valid (c_denom (fm_pcf p))) then Rej
   else match c_amt (fm_pcf p) with
@@ -540,7 +540,7 @@ Definition validate_tk (p : tk_params) : outcome :=
   | None => Abort
   | Some r =>
   if negb (rate_closed01 r) then Rej
-  else if negb (denom_valid (c_denom (tk_fee p))) then Rej   (* IssueTokenBaseFee.Validate(): denom (fix 46986d3) *)
+  else if negb (denom_valid (c_denom (tk_fee p))) then Rej   (* IssueTokenBaseFee.Validate(): denom (token fix) *)
   else match c_amt (tk_fee p) with
   | None => Rej                                              (* ... "amount is nil" (was a panic in IsNegative) *)
   | Some a =>
